@@ -46,6 +46,18 @@ func (n *Node) tagNum() (int, bool) {
 	return 0, false
 }
 
+// numParam returns the number of a "<prefix>N" parameter ("len255", "body128").
+func (n *Node) numParam(prefix string) (int, bool) {
+	for _, p := range n.P {
+		if strings.HasPrefix(p, prefix) {
+			if i, err := strconv.Atoi(p[len(prefix):]); err == nil {
+				return i, true
+			}
+		}
+	}
+	return 0, false
+}
+
 func (n *Node) isSeq() bool { return n.K == "seqof" || n.K == "setof" }
 func (n *Node) isLeaf() bool {
 	return !(n.isSeq() || n.K == "struct" || n.K == "explicit")
